@@ -80,7 +80,7 @@ def ref_addr(path, kind, testnet=False):
 OPS = [["by_path", "m/0"], ["by_path", "m/0/1"], ["by_path", "m/0/1/2/3/4/5'/6"], ["by_path", "m/44'/0'/0'"], ["by_path", "m/0'"],
        ["ckd", 0], ["ckd", 1], ["ckd", H], ["children"], ["concat"],
        ["genA", "next"], ["genA", "send", 2], ["genA", "send", 0], ["genB", "next"],
-       ["addr"], ["xkeys"], ["bip85hex"], ["bip85wif"], ["wasabi"], ["bad", "ckd"], ["bad", "by_path"], ["bad", "bip85"], ["generate"]]
+       ["addr"], ["xkeys"], ["bip85hex"], ["bip85wif"], ["wasabi"], ["bad", "ckd"], ["bad", "by_path"], ["bad", "bip85"], ["clone", "copy.deepcopy"], ["generate"]]
 
 
 _DEEP = []
@@ -211,6 +211,13 @@ class World:
                 return {"ExtPubKey": d.get("ExtPubKey"), "MasterFingerprint": str(d.get("MasterFingerprint", "")).upper(),
                         "ColdCardFirmwareVersion": "3.1.3"}, exp
             return ["exc", v], exp
+        if k == "clone":
+            # from here on the history continues on a DUPLICATE of the wallet (if this way of duplicating is offered): what
+            # happened before includes having been copied
+            c2 = dict(hdscen.clones(w)).get(op[1])
+            if c2 is not None:
+                self.w, self.nodes, self.gens = c2, {}, {}
+            return "duplicated-or-not", "duplicated-or-not"
         if k == "bad":
             # a request that must fail; only its (absent) effect on LATER requests is judged
             f = {"ckd": lambda: w.master.ckd(2**32), "by_path": lambda: w.by_path("m/0/x/1"), "bip85": lambda: w.bip85.hex(8, 0)}[op[1]]
